@@ -165,6 +165,27 @@ CHECKS = {
         "Known findings matched exactly from pins/C04.json.",
         "DESIGN.md section 5 C04",
     ),
+    "C06": (
+        "vmc/c06.py, vmc/monitored.py, vmc/monitors.py (E8 invariant monitors over the shared space of results) + vmc/corpus.py (E9)",
+        "exploration",
+        "invariants evaluated on every result of the bounded-exhaustive generator spaces of C01-C05 and the harvested corpus",
+        "Invariants I1-I7 (every path has a hop, consists of direct edges, starts at a column nothing feeds, ends at a column of a target/intermediate table; "
+        "resolved source tables are read and connected at table level; every node retrievable by an equal object, equal nodes hash equally; a resolved column has "
+        "exactly one owner edge from its parent; the flag views of get_column_lineage agree) are evaluated on every result: C01 table-profile cases (D<=2/3), C02 cases "
+        "around 5 centres, C03 histories as scripts, C04 scripts with providers, C05 scripts, and 529 corpus items under their dialects.",
+        "Trusted: the monitors themselves; the holder object reached through the runner. Known findings matched exactly from pins/C06.json.",
+        "DESIGN.md section 5 C06",
+    ),
+    "C18": (
+        "vmc/c18.py, vmc/monitored.py, vmc/monitors.py (E8) + vmc/corpus.py (E9)",
+        "exploration",
+        "invariants evaluated on every result of the bounded-exhaustive generator spaces of C01-C05 and the harvested corpus, both export levels, summary, web response",
+        "Invariants X1-X5 (unique ids; every edge endpoint and parent is an exported node; table export = table graph and covers the summary's tables; column export = "
+        "column graph with each column under its owner; the text summary lists exactly the accessor lists, sorted, unique, repeatable - also when other accessors were "
+        "called first) on the same space of results as C06; W1: the /lineage response of the web application equals the runner's own exports and verbose summary.",
+        "Trusted: the monitors; export normal form (node set, edge multiset; list order and synthetic edge ids are presentation). Known findings matched exactly from pins/C18.json.",
+        "DESIGN.md section 5 C18",
+    ),
 }
 
 NOT_YET = "check not built yet in this revision (planned in DESIGN.md section 5/11); not claimed"
